@@ -188,6 +188,46 @@ func c08LongHeader(D int, sparse bool) {
 	rt.Reach("end")
 }
 
+// c08Truncated: a size header that announces the 4- or 8-byte form and then stops short
+// ("~" + 0..2 bytes, "~~" + 0..5 bytes, all bytes symbolic), with and without the optional
+// format prefix: malformed, so an error and no panic.
+func c08Truncated(sparse bool) {
+	pre := "~"
+	hl := 3
+	if rt.Choice("form", 2) == 1 {
+		pre = "~~"
+		hl = 6
+	}
+	k := rt.Choice("k", hl)
+	s := pre + rt.String("h", k)
+	withPrefix := rt.Choice("prefix", 2) == 1
+	if sparse {
+		s = ":" + s
+		if withPrefix {
+			s = ">>sparse6<<" + s
+		}
+		var err error
+		p, msg := rt.Panics(func() { _, err = Sparse6Decode(s) })
+		rt.Check(!p, "Sparse6Decode panicked on a truncated size header: "+msg)
+		if !p {
+			rt.Check(err != nil, "Sparse6Decode accepted a truncated size header")
+		}
+	} else {
+		if withPrefix {
+			s = ">>graph6<<" + s
+		}
+		var err error
+		p, msg := rt.Panics(func() { _, err = Graph6Decode(s) })
+		rt.Check(!p, "Graph6Decode panicked on a truncated size header: "+msg)
+		if !p {
+			rt.Check(err != nil, "Graph6Decode accepted a truncated size header")
+		}
+	}
+	rt.Reach("end")
+}
+
+func H_c08_truncated() { c08Truncated(rt.Choice("sparse", 2) == 1) }
+
 func H_c08_g6long_q() { c08LongHeader(2, false) }
 func H_c08_s6long_q() { c08LongHeader(1, true) }
 func H_c08_g6long_t() { c08LongHeader(3, false) }
